@@ -147,7 +147,8 @@ def _log_fresh(got, inp):
         return True
     msg = got[1]['msg'] if 'msg' in got[1] else got[1].get('overall_message', '')
     if isinstance(inp, list):
-        return msg.count('MITx Grading Library Version') == 1 and msg.count('Student Responses') == 1
+        return (msg.count('MITx Grading Library Version') == 1 and msg.count('Student Responses') == 1
+                and ('Student Responses:<br/>\n' + '<br/>\n'.join(inp)) in msg)
     return (msg.count('MITx Grading Library Version') == 1 and msg.count('Student Response') == 1 and msg.count('Expect value inferred') <= 1
             and ('Student Response:<br/>\n%s' % inp) in msg)
 
